@@ -794,6 +794,14 @@ outer:
 	}
 }
 
+// the tag went away or got another definition: the result of a tagging job running for it is outdated,
+// even if a tag with that name and definition exists again when the job finishes
+func (mgr *Manager) abandonTaggingJob(name string) {
+	if mgr.taggingJobRunning && mgr.taggingJobTag == name {
+		mgr.taggingJobTag = ""
+	}
+}
+
 func (mgr *Manager) mergeIndexesJob(offset int, indexes []*index.Reader, releaser indexReleaser) {
 	verifJobBegin("merge")
 	mergedIndexes, err := index.Merge(mgr.IndexDir, indexes)
@@ -872,8 +880,8 @@ func (mgr *Manager) updateTagJob(name string, t tag, tagDetails map[string]query
 	verifJobGate("tag")
 	mgr.jobs <- func() {
 		defer verifJobEnd("tag")
-		// don't touch the tag if it was modified
-		if ot, ok := mgr.tags[name]; ok && ot.definition == t.definition {
+		// don't touch the tag if it was modified, or replaced by another tag of the same name and definition
+		if ot, ok := mgr.tags[name]; ok && mgr.taggingJobTag == name && ot.definition == t.definition {
 			t.color = ot.color
 			t.converters = ot.converters
 			t.referencedBy = ot.referencedBy
@@ -1129,6 +1137,7 @@ func (mgr *Manager) DelTag(name string) error {
 				}
 			}
 			delete(mgr.tags, name)
+			mgr.abandonTaggingJob(name)
 			mgr.event(Event{
 				Type: "tagDeleted",
 				Tag: &TagInfo{
@@ -1316,6 +1325,7 @@ func (mgr *Manager) UpdateTag(name string, operation UpdateTagOperation) error {
 				}
 				tag = newTag
 				mgr.tags[name] = tag
+				mgr.abandonTaggingJob(name)
 				mgr.inheritTagUncertainty()
 				mgr.startTaggingJobIfNeeded()
 				mgr.startConverterJobIfNeeded()
@@ -1454,6 +1464,7 @@ func (mgr *Manager) UpdateTag(name string, operation UpdateTagOperation) error {
 				}
 				delete(mgr.tags, name)
 				mgr.tags[info.name] = tag
+				mgr.abandonTaggingJob(name)
 				for _, rtn := range tag.referencedTags() {
 					rt := mgr.tags[rtn]
 					delete(rt.referencedBy, name)
